@@ -17,6 +17,7 @@ import re
 
 import halting
 import symvm
+import vmstate
 from common import (SPEC, WORK, ToolError, Verdict, harness, log, printed, read_json, run_tlc, tlc_must_pass, workdir)
 
 
@@ -97,6 +98,10 @@ def run(prop, tier, seed):
         log(f"SPEC-DRIFT: the code deviates from the mirror (SymVMMC) on {mc['replay']['mismatching']} cases without "
             f"violating a property")
     halt = halting.run(v, tier, seed) if prop == "C03" else None
+    stack = None
+    if prop == "C17":
+        stack = vmstate.run(tier, seed)
+        vmstate.report(prop, v, stack)
     st = res["stats"]
     log(f"[{prop}] SymVMTrace: {res['records']} records, {len(res['viol'])} invariant failures ({len(mine)} for {prop})")
     cov = {
@@ -115,6 +120,10 @@ def run(prop, tier, seed):
                 "kinds, error programs of 9 kinds, gas programs) under limits L in 1..12, F in 1..60, G in 150..30M, both modes",
         "samples": [mc["sample"], {"violations": [symvm.classify(x) for x in res["viol"]][:5]}],
     }
+    if stack:
+        cov["operand_stack_model"] = vmstate.coverage(stack)
+        cov["states"] += stack["states"]
+        cov["rule"] += "; operand stack: StackMC (all histories of <= 6 calls, capacity 3) and random histories on the real Stack validated by StackTrace.tla"
     if halt:
         cov["whole_analysis_halting"] = halt
         cov["states"] += halt["states"]
